@@ -16,14 +16,19 @@ MANIFEST = dict(
          "the outputs (each complete) followed by a prefix of the removals, single-output runs stay all-or-nothing; exit code in {0,1,2}; every "
          "damage class shoot diagnoses is handled cleanly for every sub-command. Tied to the source by theorems over tables regenerated from "
          "/repo on every run (every logx.Fatal*/os.Exit site reachable after the first notedownSrc is one of the four modelled ones; the source "
-         "has no explicit panic() and by running the rebuilt binary on ~190 structured damaged inputs with predicted exit code and directory "
+         "has no explicit panic(); the phase calls of main.main stand in the order of the phase machine; every compile/match of a "
+         "regular expression, glob pattern or template text is built from literals, constants and QuoteMeta'd values except three classified "
+         "sites; every literal index into a go/ast slice stands in a function that tests len() of that field) and by running the rebuilt binary on ~190 structured damaged inputs with predicted exit code and directory "
          "effect (flag errors and near-valid flag VALUES, missing files/dirs/packages/types, wrong kinds, bad REST result lists, duplicate "
          "aliases, reserved-method misuse, format failures, -type names that resolve to functions / constants / variables / enum members / "
          "methods / imported packages / predeclared identifiers) plus histories of runs in one directory (per-type outputs -> all-in-one "
          "-> again) next to files matching the clean glob with extreme first lines (empty, no newline, CRLF, 64 KiB..200 KB), "
          "seeded random ones and an enumerated stream of unpredicted damage (token "
          "deletion, ill-typed fields, malformed directives/tags, unsupported signatures, odd free-text flag values) where only the property "
-         "is evaluated. The six runtime panics and the Clean defect this check found were repaired in /repo; no finding region is left. "
+         "is evaluated. Every source damage is run under several selection modes (-type list, -file=<damaged file>, -file -sep, -type=*), `shoot map` "
+         "additionally with 14 parameter/result-list shapes of hand-written constructors next to a ShootNew marker. Eight runtime panics and "
+         "the Clean defect were repaired in /repo; one finding region F_glob_dir (an unclosed [ in the [dir] path makes Clean's glob fail "
+         "AFTER the writes: exit 1 with files changed; witness theorem, replayed on every run). "
          "PARTIAL by nature: absence of Go runtime panics is sampled, not proved.",
     note="Lean kernel + standard axioms; facts extractor (go/ast, name-based call graph) and black-box runs of the rebuilt binary are trusted; "
          "runtime-panic freedom rests on the damaged-input correspondence only.",
